@@ -21,7 +21,7 @@ LEVEL = 'fault_enumeration'
 RULE = ('simulated admission followed by a one-board passed-out session: a generated list of 4-10 connection attempts - exactly '
         'one valid request per seat plus 0-6 invalid ones of kinds wrong protocol version (0-999, not 18), seat already '
         'taken, team name different from the seated partner\'s - in a generated order, seat names in generated letter case, '
-        'generated team names (any Unicode without ", CR, LF). Sequential mode: each attempt connects after the previous '
+        'generated team names (any Unicode without ", CR, LF; the empty name included). Sequential mode: each attempt connects after the previous '
         'one has its verdict (every order of arrival). Concurrent mode: an attempt connects as soon as the attempts it '
         'refers to have their verdict (seat-taken after that seat\'s valid request, team-mismatch after the partner\'s, the '
         'last valid request after all others) and the generated thread schedule decides the rest. Oracle: a seat table '
@@ -43,8 +43,9 @@ def plan(tier):
 
 @st.composite
 def attempts_strategy(draw):
-    teams = draw(st.lists(GS.TEAM, min_size=2, max_size=2, unique=True))
-    other = draw(GS.TEAM.filter(lambda t: t not in teams))
+    team = st.one_of(GS.TEAM, GS.TEAM, GS.TEAM, st.just(''))         # the empty name is a well-formed (and accepted) team name
+    teams = draw(st.lists(team, min_size=2, max_size=2, unique=True))
+    other = draw(team.filter(lambda t: t not in teams))
     valid = [{'seat': s, 'team': teams[s % 2], 'version': 18, 'kind': 'valid'} for s in draw(permutations([0, 1, 2, 3]))]
     n_inv = draw(st.integers(0, 6))
     inv = []
